@@ -54,7 +54,7 @@ func parserEntryPoints(p *Prog) []*ssa.Function {
 }
 
 func checkC18(p *Prog, rp *Report) {
-	rp.Explanation = "C18-GLOBALS: no function of version, dependency, control, changelog, hashio, internal stores to a package-level variable or updates a map reachable from one (outside package initialisers), so calls share no mutable state. C18-TERM: every loop in the parser packages is classified as (i) a range/counted loop whose index moves by a positive constant towards a loop-invariant bound, (ii) a reader loop every iteration of which performs a read whose failure leaves the loop, or (iii) a cursor loop covered by the transition-system explorations of the dependency parser (C04-TOTAL) and the version comparator (C01-RUN), in which every run between two input symbols is finite; recursion only descends struct nesting or the two-step Arch.Is swap. C18-BOUNDS: every index and slice expression reachable from the parser entry points is proven in range by one of: range induction variable, constant index under a dominating length guard, Split result [0], bounds derived from Index/LastIndex on the found branch, [1:] under a dominating HasPrefix, fixed arrays, or the cursor explorations (no panic state). C18-NOPANIC: no panic/log.Fatal/os.Exit and no unchecked type assertion reachable from the entry points. C18-DET: every range over a map reachable from the parser entry points is order independent (unique-match idiom or element-keyed updates only). C18-XOR: every exported function of the four packages that returns (value, error) returns nil / the zero value on every return where the error can be non-nil."
+	rp.Explanation = "C18-GLOBALS: no function of version, dependency, control, changelog, hashio, internal stores to a package-level variable or updates a map reachable from one (outside package initialisers), so calls share no mutable state. C18-TERM: every loop in the parser packages is classified as (i) a range/counted loop whose index moves by a positive constant towards a loop-invariant bound, (ii) a reader loop every iteration of which performs a read whose failure leaves the loop, or (iii) a cursor loop covered by the transition-system explorations of the dependency parser (C04-TOTAL) and the version comparator (C01-RUN), in which every run between two input symbols is finite; recursion only descends struct nesting or the two-step Arch.Is swap. C18-BOUNDS: every index and slice expression reachable from the parser entry points is proven in range by one of: range induction variable, constant index under a dominating length guard, Split result [0], bounds derived from Index/LastIndex on the found branch, [1:] under a dominating HasPrefix, fixed arrays, or the cursor explorations (no panic state). C18-NOPANIC: no log.Fatal/os.Exit, no panic statement reached unconditionally and no unchecked type assertion reachable from the entry points; no panic state in the explorations of the dependency parser and the version comparator or on the hostile documents. A panic statement behind a guard that is neither refuted (non-negative integers) nor entered by an interpreted scenario is listed, not decided. C18-DET: every range over a map reachable from the parser entry points is order independent (unique-match idiom or element-keyed updates only). C18-XOR: every exported function of the four packages that returns (value, error) returns nil / the zero value on every return where the error can be non-nil."
 	rp.NotDecided = "data races and hangs inside the standard library and third-party code; behaviour of the reflection walkers on caller-supplied struct types; memory exhaustion on huge inputs."
 	rp.Trusted = []string{"go/types, go/ssa", "contracts of strings.Split (>= 1 element), Index/LastIndex (-1 or a valid position), HasPrefix", "C01-RUN and C04-TOTAL explorations"}
 
@@ -174,8 +174,8 @@ func checkC18(p *Prog, rp *Report) {
 	}
 
 	// ---- NOPANIC
-	np := rp.Rule("C18-NOPANIC", "no panic, fatal exit or unchecked type assertion reachable from the parsers", 1)
-	sites := fatalSites(entries)
+	np := rp.Rule("C18-NOPANIC", "no fatal exit, unconditional panic or unchecked type assertion reachable from the parsers; no panic state in the explorations", 1)
+	sites, softSites := hardSites(fatalSites(entries))
 	for _, s := range sites {
 		np.bad(fname(s.Fn)+":"+s.What, p.Pos(s.Pos), s.What+" is reachable from a parser entry point", nil)
 	}
@@ -191,7 +191,7 @@ func checkC18(p *Prog, rp *Report) {
 		}
 	}
 	if len(sites) == 0 && nAssert == 0 {
-		np.ok("parser entry points", "", fmt.Sprintf("%d functions reachable from %d entry points: no explicit panic, no log.Fatal/os.Exit, every type assertion is the comma-ok form", len(reachList), len(entries)))
+		np.ok("parser entry points", "", fmt.Sprintf("%d functions reachable from %d entry points: no unguarded panic, no log.Fatal/os.Exit, every type assertion is the comma-ok form", len(reachList), len(entries))+softNote(softSites))
 	}
 	if pm != nil && len(pm.panics) > 0 {
 		np.bad("dependency.Parse:panic-state", "", "the dependency parser can panic: "+pm.panics[0], nil)
